@@ -90,5 +90,22 @@ type Triple[A, B, C any] struct {
 	C C
 }
 
+// enum-like scalars with String / Error methods: fmt-style printing of such a value yields the method's text, not the value
+type (
+	Stage  int
+	Errno  uint16
+	Digits int32
+	Ratio  float64
+	Flag   bool
+	Label  string
+)
+
+func (s Stage) String() string  { return "stage-" + string(rune('a'+int(s)&7)) }
+func (e Errno) Error() string   { return "errno" }
+func (d Digits) String() string { return "30" }
+func (r Ratio) String() string  { return "1.5" }
+func (f Flag) String() string   { return "true" }
+func (l Label) String() string  { return "<" + string(l) + ">" }
+
 // Größe: a defined type with a non-ASCII name
 type Größe int
